@@ -491,6 +491,10 @@ def summarize(prop, tier, seed, results, meta, wall):
         if r.get("bounds"):
             bounds.append("%s: %s" % (r["case"], r["bounds"]))
         for e in r["errors"]:
+            if e["kind"] == "wall" or (e["kind"] == "bound" and "wall-clock" in e["msg"]):
+                # the case ran out of its wall-clock budget: a timeout, reported like one (what it had decided until then is kept)
+                undecided.append("%s (%s)" % (r["case"], e["msg"]))
+                continue
             harness_errors.append("%s: %s: %s" % (r["case"], e["kind"], e["msg"]))
         if r["paths"] and r["unreachable_paths"] == r["paths"]:
             harness_errors.append("%s: every path has unsatisfiable hypotheses (vacuous)" % r["case"])
